@@ -26,13 +26,11 @@ CHECKS = {
         ref='DESIGN.md §7 C02'),
     'C03': dict(
         technique='reference-model + metamorphic monitor: updates of the pastified online monitor vs offline '
-                  'robustness of the original formula on each prefix, delayed by a harness-computed horizon; defect '
-                  'model of the pastifier for attributing the one open finding',
-        text='Exploration: generated bounded-future formulas (h<=12) x traces; every update i>=h compared. '
-             'Violations whose shape and value match the open finding D-past-over-future are reported as '
-             'KNOWN-FINDING; anything else is a VIOLATION.',
-        note='Trusted base: ref_discrete.py, harness horizon computation (lang.horizon), pastmodel.py (only for '
-             'attribution, never to accept a value).',
+                  'robustness of the original formula on each prefix, delayed by a harness-computed horizon',
+        text='Exploration: generated bounded-future formulas (h<=12) x traces; every update i>=h compared. Nothing '
+             'is masked: the former open finding D-past-over-future was repaired for discrete time (895bb5b) and '
+             'its classifier deleted, so any disagreement is a VIOLATION.',
+        note='Trusted base: ref_discrete.py, harness horizon computation (lang.horizon).',
         ref='DESIGN.md §7 C03'),
     'C16': dict(
         technique='metamorphic monitor: offline evaluate() on a trace and on adversarial extensions of it, compared '
